@@ -403,11 +403,15 @@ class trie {
                     if (tpos == 0) {
                         return false;
                     }
-                    if (!m_tvec.prefix_match(get_suffix(itr->m_key, kpos), tpos)) {
+                    // The rest of the query must be a prefix of the stored suffix.
+                    const std::string_view rest = get_suffix(itr->m_key, kpos);
+                    const std::uint64_t dlen = itr->m_decoded.size();
+                    m_tvec.decode(tpos, [&](char c) { itr->m_decoded.push_back(c); });
+                    if (itr->m_decoded.size() - dlen < rest.size() ||
+                        itr->m_decoded.compare(dlen, rest.size(), rest) != 0) {
                         return false;
                     }
                     itr->m_id = npos_to_id(npos);
-                    m_tvec.decode(tpos, [&](char c) { itr->m_decoded.push_back(c); });
                     return true;
                 }
 
